@@ -193,7 +193,7 @@ class Grammar(object):
                 out[self._key(self._expr(k, env))] = self._expr(v, env)
             return out
         if isinstance(e, ast.BinOp):
-            if isinstance(e.op, (ast.Add, ast.BitOr, ast.BitXor)):
+            if isinstance(e.op, (ast.Add, ast.BitOr, ast.BitXor, ast.Sub)):
                 l = self._expr(e.left, env)
                 r = self._expr(e.right, env)
                 if isinstance(l, GNode) or isinstance(r, GNode):
@@ -201,7 +201,9 @@ class Grammar(object):
                     rn = self._as_node(r, ln)
                     if ln_ is None or rn is None:
                         return Opaque('operand of %s' % type(e.op).__name__)
-                    kind = {'Add': 'And', 'BitOr': 'MatchFirst', 'BitXor': 'Or'}[type(e.op).__name__]
+                    # `a - b` is And with an error stop: same language, but a failure after `a` raises
+                    # ParseSyntaxException (a ParseFatalException, NOT a ParseException)
+                    kind = {'Add': 'And', 'BitOr': 'MatchFirst', 'BitXor': 'Or', 'Sub': 'And'}[type(e.op).__name__]
                     kids = []
                     # pyparsing flattens chains of the same operator only when the left side is an
                     # un-named, action-free expression of the same kind created by the operator
@@ -211,6 +213,8 @@ class Grammar(object):
                         kids = [ln_]
                     kids.append(rn)
                     n = GNode(kind, kids, {'op': True}, ln, self.modname)
+                    if isinstance(e.op, ast.Sub) or (ln_.kind == 'And' and ln_.data.get('error_stop')):
+                        n.data['error_stop'] = True
                     self.nodes += 1
                     return n
             return self.model.fold(self.modname, e, {k: v for k, v in env.items()
